@@ -30,16 +30,16 @@ type solverDef struct {
 }
 
 var solverDefs = []solverDef{
-	{"z3-new", func(f string, ms int) []string { return []string{"z3-new", fmt.Sprintf("-t:%d", ms), f} }},
-	{"z3", func(f string, ms int) []string { return []string{"z3", fmt.Sprintf("-t:%d", ms), f} }},
 	{"cvc5", func(f string, ms int) []string {
 		return []string{"cvc5", "--lang=smt2", fmt.Sprintf("--tlimit=%d", ms), f}
 	}},
+	{"z3-new", func(f string, ms int) []string { return []string{"z3-new", fmt.Sprintf("-t:%d", ms), f} }},
 	// cvc5 with its exact bit-vector-to-integer translation (modular arithmetic made explicit): decides
 	// 64-bit linear-arithmetic goals that bit-blasting cannot
 	{"cvc5-int", func(f string, ms int) []string {
 		return []string{"cvc5", "--lang=smt2", "--solve-bv-as-int=sum", fmt.Sprintf("--tlimit=%d", ms), f}
 	}},
+	{"z3", func(f string, ms int) []string { return []string{"z3", fmt.Sprintf("-t:%d", ms), f} }},
 }
 
 var solverSem = make(chan struct{}, 16)
@@ -161,8 +161,24 @@ func race(file string, timeoutMs int, needAgree int, only []string) (SolverAnswe
 				continue
 			}
 		}
+		// staggered start: most obligations are decided by the first back end within a fraction of a
+		// second; the others only start if it has not answered yet
+		delay := time.Duration(n) * 200 * time.Millisecond
+		if needAgree > 1 {
+			delay = 0
+		}
 		n++
-		go func(sd solverDef) { ch <- runOne(ctx, sd, file, timeoutMs) }(sd)
+		go func(sd solverDef, delay time.Duration) {
+			if delay > 0 {
+				select {
+				case <-time.After(delay):
+				case <-ctx.Done():
+					ch <- SolverAnswer{Status: "cancelled", Solver: sd.name}
+					return
+				}
+			}
+			ch <- runOne(ctx, sd, file, timeoutMs)
+		}(sd, delay)
 	}
 	var all []SolverAnswer
 	var best SolverAnswer
